@@ -7,12 +7,12 @@ from framework import REPO
 from props import e1util
 from props.e1util import unhex
 
-TIE = ["Nsq.Tie.Wire"]
+TIE = ["Nsq.Tie.Wire", "Nsq.Tie.WireFn"]
 # audit round 7, B28 (builder codec2): ties the old extractor was blind to — the fan-out loop with its call
 # statements, `continue` and nesting (kind stmtsx), and the protocol magics tied to the model's bytes
 TIE_B28 = ["Nsq.Tie.FanoutX", "Nsq.Tie.MagicBytes"]
 TIE = TIE + TIE_B28
-PROPS = ["Nsq.Props.C07", "Nsq.Props.C07Path"]
+PROPS = ["Nsq.Props.C07", "Nsq.Props.C07Path", "Nsq.Props.C07Fn"]
 
 
 from props import e9_dq  # noqa: E402
@@ -20,9 +20,13 @@ from props import e9_dq  # noqa: E402
 
 def run(ctx):
     ctx.trusted += [
-        "translator tools/go2lean (kinds consts/stmts/body): the statements of Message.WriteTo, decodeMessage, "
-        "SendFramedResponse, readMPUB, readLen, SendMessage, writeMessageToBackend, bufferPoolPut, doMPUB's text "
-        "loop and Topic.messagePump's copy are rendered as text and compared with the model's transcription",
+        "translator tools/go2lean, kind bytes: Message.WriteTo, decodeMessage, SendFramedResponse, SendResponse and "
+        "readLen are translated into Lean definitions (List UInt8 / BitVec, explicit panic outcome) that Tie.WireFn "
+        "proves equal to the model; its prelude Model/ByteOps renders encoding/binary big-endian as Model.Wire.beBytes/"
+        "beVal, bytes.Buffer as the writer that appends everything and io.ReadFull over a byte stream",
+        "translator tools/go2lean (kinds consts/stmts/body): the statements of readMPUB, SendMessage, "
+        "writeMessageToBackend, bufferPoolPut, doMPUB's text loop, doPUB's body read and Topic.messagePump's copy are "
+        "rendered as text and compared with the model's transcription",
         "encoding/binary, bufio.Writer / bufio.Reader.ReadBytes, io.LimitReader, io.ReadFull, bytes.Buffer "
         "(Go standard library): modelled, compared on generated inputs through the real code",
         "go-nsq ReadResponse / UnpackResponse / DecodeMessage as the client-side reader (modelled, compared)",
@@ -50,6 +54,7 @@ def run(ctx):
                 "{plain,TLS}x{none,snappy,deflate l}x{buffer size}x{buffer timeout}, REQ, two channels, restart; "
                 "a case is distinct by its operation line; non-trivial = not an error answer")
     gen_ok, _ = ctx.gen("e1_codec")
+    ctx.gen("e1_bytes")   # translated WriteTo / decodeMessage / SendFramedResponse / SendResponse / readLen (kind bytes)
     for spec in ("e1_guidloop", "e3_proto", "e4_proto"):   # Gen.GuidLoop (fanoutLoop), Gen.Proto / Gen.LookupdProto (magics)
         ctx.gen(spec)
     ok, log = ctx.lean_build(TIE + PROPS)
